@@ -296,6 +296,61 @@ M('davidson-notconverging-dropped', 'C15', 'status-assigned-on-every-path',
 M('ritzpairs-sort-forgets-residues', 'C15', 'ritz-pairs-consistency',
   [('LinAlg/RitzPairs.h', "            m_residues.col(i) = temp.m_residues.col(ind[i]);\n", "")])
 
+# ----------------------------------------------------------------------------- C07 / C03
+M('arnoldi-forgets-restart-flag', 'C07', 'subdiagonal-zero-iff-fresh-direction',
+  [('LinAlg/Arnoldi.h', """                expand_basis(V, 2 * i, m_fac_f, m_beta, op_counter);
+                restart = true;""", """                expand_basis(V, 2 * i, m_fac_f, m_beta, op_counter);""")], 'after a breakdown H(i,i-1) = new beta: A V = V H + f e\' broken')
+M('lanczos-subdiag-arms-swapped', 'C07', 'subdiagonal-zero-iff-fresh-direction',
+  [('LinAlg/Lanczos.h', "m_fac_H(i, i - 1) = restart ? Scalar(0) : Scalar(m_beta);", "m_fac_H(i, i - 1) = restart ? Scalar(m_beta) : Scalar(0);")])
+M('doubleshift-decrements-once', 'C07,C13', 'restart-shift-accounting',
+  [('LinAlg/Arnoldi.h', """        decomp.matrix_QtHQ(m_fac_H);
+        m_k -= 2;""", """        decomp.matrix_QtHQ(m_fac_H);
+        m_k--;""")], 'only complex Ritz values as shifts expose it')
+M('gen-restart-double-shift-no-skip', 'C07', 'restart-shift-accounting',
+  [('GenEigsBase.h', """                m_fac.compress_H(decomp_ds);
+
+                i++;""", """                m_fac.compress_H(decomp_ds);
+""")])
+M('arnoldiop-B-applied-to-left', 'C07,C03', 'adaptor-applies-B-once',
+  [('MatOp/internal/ArnoldiOp.h', """        m_Bop.perform_op(y.data(), m_cache.data());
+        res.noalias() = x.adjoint() * m_cache;""", """        m_Bop.perform_op(y.data(), m_cache.data());
+        res.noalias() = x.adjoint() * y;""")], 'B-inner product silently Euclidean in adjoint_product only')
+M('lanczos-normalises-with-euclid', 'C07,C03', 'no-direct-reduction-in-factorization',
+  [('LinAlg/Lanczos.h', "            m_beta = m_op.norm(m_fac_f);\n\n            // f/||f|| is going to be the next column of V", "            m_beta = m_fac_f.norm();\n\n            // f/||f|| is going to be the next column of V")])
+M('arnoldi-divides-before-test', 'C07,C13', 'division-by-beta-guarded',
+  [('LinAlg/Arnoldi.h', """            bool restart = false;
+            // If beta = 0, then the next V is not full rank""", """            bool restart = false;
+            m_fac_V.col(i).noalias() = m_fac_f / m_beta;
+            // If beta = 0, then the next V is not full rank""")])
+
+# ----------------------------------------------------------------------------- C03 / C04
+M('reginv-identity-inner-product', 'C03', 'mode-uses-documented-operator-pair',
+  [('SymGEigsSolver.h', "    public HermEigsBase<SymGEigsRegInvOp<OpType, BOpType>, BOpType>", "    public HermEigsBase<SymGEigsRegInvOp<OpType, BOpType>, IdentityBOp>"),
+   ('SymGEigsSolver.h', """    using ModeMatOp = SymGEigsRegInvOp<OpType, BOpType>;
+    using Base = HermEigsBase<ModeMatOp, BOpType>;""", """    using ModeMatOp = SymGEigsRegInvOp<OpType, BOpType>;
+    using Base = HermEigsBase<ModeMatOp, IdentityBOp>;"""),
+   ('SymGEigsSolver.h', "        Base(ModeMatOp(op, Bop), Bop, nev, ncv)", "        Base(ModeMatOp(op, Bop), IdentityBOp(), nev, ncv)")],
+  'B^-1 A is not symmetric in the Euclidean inner product: X\'BX != I, Lanczos on a non-symmetric operator')
+M('cholesky-eigenvectors0-not-backsubstituted', 'C03', 'cholesky-eigenvectors-back-substituted',
+  [('SymGEigsSolver.h', "        return SymGEigsSolver<OpType, BOpType, GEigsMode::Cholesky>::eigenvectors(this->m_nev);", "        return Base::eigenvectors(this->m_nev);")],
+  'eigenvectors() returns y = L^T x instead of x; eigenvectors(k) still right')
+M('shiftinvert-backtransform-sign', 'C03,C04', 'back-transformation-inverts-spectral-map',
+  [('SymGEigsShiftSolver.h', "m_ritz_val.head(m_nev).array() = Scalar(1) / m_ritz_val.head(m_nev).array() + m_sigma;", "m_ritz_val.head(m_nev).array() = Scalar(1) / m_ritz_val.head(m_nev).array() - m_sigma;")])
+M('buckling-backtransform-wrong', 'C03,C04', 'back-transformation-inverts-spectral-map',
+  [('SymGEigsShiftSolver.h', """        m_ritz_val.head(m_nev).array() = m_sigma * m_ritz_val.head(m_nev).array() /
+            (m_ritz_val.head(m_nev).array() - Scalar(1));""", """        m_ritz_val.head(m_nev).array() = m_sigma * m_ritz_val.head(m_nev).array() /
+            (m_ritz_val.head(m_nev).array() + Scalar(1));""")])
+M('herm-rvalue-fac-from-argument', 'C03', 'moved-operator-outlives-its-references',
+  [('HermEigsBase.h', "        m_fac(ArnoldiOpType(m_op, Bop), m_ncv),", "        m_fac(ArnoldiOpType(op, Bop), m_ncv),")], 'factorization keeps a reference to the moved-from temporary')
+M('herm-restart-shifts-from-head', 'C04', 'wanted-first-split',
+  [('HermEigsBase.h', "RealVector shifts = m_ritz_val.tail(nshift);", "RealVector shifts = m_ritz_val.head(nshift);")], 'the WANTED Ritz values are used as shifts: converges to the other end')
+M('symshift-writes-ritz-in-ctor-helper', 'C04', 'ritz-values-written-only-by-retrieve-and-final-sort',
+  [('SymEigsShiftSolver.h', """        Base::sort_ritzpair(sort_rule);
+    }""", """        Base::sort_ritzpair(sort_rule);
+    }
+
+    void shift_back() { m_ritz_val.head(m_nev).array() -= m_sigma; }""")])
+
 # behaviour-preserving edits: every listed check must stay silent (exit 0)
 NEUTRAL = []
 
